@@ -351,12 +351,22 @@ func ruleR163(c *Ctx) {
 		return
 	}
 	var appended, compared []string
-	ast.Inspect(fd.Body, func(x ast.Node) bool {
+	var scanBody ast.Node = fd.Body
+	if rfs := c.returnedFuncs(root, fd); len(rfs) == 1 {
+		scanBody = rfs[0].body
+	}
+	ast.Inspect(scanBody, func(x ast.Node) bool {
 		switch t := x.(type) {
 		case *ast.CallExpr:
 			if id, ok := ast.Unparen(t.Fun).(*ast.Ident); ok && id.Name == "append" && len(t.Args) == 2 {
 				if _, isStar := ast.Unparen(t.Args[0]).(*ast.StarExpr); isStar {
 					appended = append(appended, nodeStr(c.Fset, t.Args[1]))
+				}
+			}
+			// slices.Contains(*outersUsed, outer)
+			if cal := Callee(info, t); cal != nil && cal.Pkg() != nil && cal.Pkg().Path() == "slices" && (cal.Name() == "Contains" || cal.Name() == "Index") && len(t.Args) == 2 {
+				if _, isStar := ast.Unparen(t.Args[0]).(*ast.StarExpr); isStar {
+					compared = append(compared, nodeStr(c.Fset, t.Args[1]))
 				}
 			}
 		case *ast.RangeStmt:
